@@ -128,10 +128,10 @@ def rule_bookkeeping(ctx):
             if kws.get('left') != LEFT or kws.get('right') != RIGHT:
                 ctx.violated('R3', fi, 'newval = ' + T.show(newval)[:160], 'left / right must reach the N-d variant', node=p.node)
                 continue
-            ok = newaxes[0] == 'comp' and newaxes[3][0][1] == ('attr', obj, 'axes') and newaxes[2][0] == 'ifexp' and newaxes[2][3] == newaxis \
-                and newaxes[2][2] == ('call', ('attr', ('elem', ('attr', obj, 'axes'), newaxes[3][0][0]), 'copy'), (), ()) \
-                and newaxes[2][1] in (T.mkcmp('!=', ('attr', ('elem', ('attr', obj, 'axes'), newaxes[3][0][0]), 'name'), ('attr', newaxis, 'name')),
-                                      T.mkcmp('!=', ('attr', ('elem', ('attr', obj, 'axes'), newaxes[3][0][0]), 'name'), name))
+            ok = newaxes[0] == 'comp' and newaxes[3][0][1] == ('attr', obj, 'axes') and newaxes[2][0] == 'ifexp' and newaxes[2][2] == newaxis \
+                and newaxes[2][3] == ('call', ('attr', ('elem', ('attr', obj, 'axes'), newaxes[3][0][0]), 'copy'), (), ()) \
+                and newaxes[2][1] in (T.mkcmp('==', ('attr', ('elem', ('attr', obj, 'axes'), newaxes[3][0][0]), 'name'), ('attr', newaxis, 'name')),
+                                      T.mkcmp('==', ('attr', ('elem', ('attr', obj, 'axes'), newaxes[3][0][0]), 'name'), name))        # canonical ifexp polarity
             if not ok:
                 ctx.violated('R2', fi, 'newaxes = ' + T.show(newaxes)[:160], 'N-d: the axis of the same name becomes Axis(values, name), the others are copied', node=p.node)
                 continue
